@@ -25,14 +25,24 @@ def symmetricDifference (a b : View) : List Nat := difference a b ++ difference 
 def intersection (a b : View) : List Nat :=
   if a.len ≤ b.len then a.iter.filter b.mem else b.iter.filter a.mem
 
-/-- `a.union(b)`: the larger, then what the smaller has in addition -/
+/-- `a.union(b)`.  The code binds `(smaller, larger) = if self.len() >= other.len() { (self, other) } else
+    { (other, self) }` — the names are the wrong way round — and yields `larger.iter().chain(smaller.difference(larger))`:
+    so it is the SMALLER set that is iterated in full, then what the larger has in addition.  (Found by the
+    lock-step: the first version of this definition modelled what the names suggest.)  The result is the union
+    either way (`union_spec`); only the order and the number of lookups differ. -/
 def union (a b : View) : List Nat :=
-  if a.len ≥ b.len then a.iter ++ difference b a else b.iter ++ difference a b
+  if a.len ≥ b.len then b.iter ++ difference a b else a.iter ++ difference b a
 
 /-- `is_disjoint`, `is_subset`, `is_superset` -/
 def isDisjoint (a b : View) : Bool := a.iter.all (fun k => !b.mem k)
 def isSubset (a b : View) : Bool := decide (a.len ≤ b.len) && a.iter.all b.mem
 def isSuperset (a b : View) : Bool := isSubset b a
+
+/-- `a == b` on sets: equal lengths and every element of `a` in `b` -/
+def eq (a b : View) : Bool := decide (a.len = b.len) && a.iter.all b.mem
+
+/-- a view given by an iteration sequence alone (`contains` = membership in it) -/
+def viewOfIter (it : List Nat) (len : Nat) : View := { iter := it, mem := fun k => it.contains k, len := len }
 
 /-- the view of a map-backed set under a visiting order -/
 def viewOf (m : Map) (order : List Nat) : View :=
